@@ -380,7 +380,11 @@ class Walker:
             return "%r" % expr.operand.value           # `+1`
         if isinstance(expr, ALIAS_TYPES) or is_inf_literal(expr):
             if isinstance(expr, ast.Subscript) and not isinstance(expr.slice, (ast.Constant, ast.Name, ast.Attribute, ast.UnaryOp, ast.BinOp, ast.Subscript)):
-                return None
+                # (a position looked up with `<list>.index(x)` is still a plain element access: `xs[[k(i) for i in xs].index(key)]`)
+                sl = expr.slice
+                if not (isinstance(sl, ast.Call) and isinstance(sl.func, ast.Attribute) and sl.func.attr == "index" and len(sl.args) == 1 and not sl.keywords
+                        and isinstance(sl.args[0], (ast.Name, ast.Attribute, ast.Subscript, ast.Constant))):
+                    return None
             return self.canon(expr, frame, env)
         if isinstance(expr, ast.Call):
             k = ("call", id(expr), frame.fid)
